@@ -220,3 +220,103 @@ pub fn sequences(n: usize) -> Vec<Vec<usize>> {
     }
     out
 }
+
+/// Records each writer must reject (one poisoned field in the everything-present record), by the
+/// rejection reasons the model knows. `bcf`: reasons of the BCF writer, else of the VCF text writer.
+/// All are relative to `gen_::rich_header(ff, 2 samples)`.
+pub fn rejects(ff: (u32, u32), bcf: bool) -> Vec<(String, Rec)> {
+    let f = full(ff);
+    let mut out: Vec<(String, Rec)> = Vec::new();
+    let mut add = |name: &str, r: Rec| out.push((name.to_string(), r));
+    let set_info = |r: &mut Rec, k: &str, v: Option<Val>| {
+        if let Some(e) = r.info.iter_mut().find(|(x, _)| x == k) {
+            e.1 = v;
+        } else {
+            r.info.push((k.to_string(), v));
+        }
+    };
+    let mut v = f.clone();
+    set_info(&mut v, "XI1", Some(Val::Int(i32::MIN + 3)));
+    add("info-reserved-int", v);
+    let mut v = f.clone();
+    set_info(&mut v, "XIU", Some(Val::IntA(vec![Some(1), Some(i32::MIN)])));
+    add("info-vector-reserved-int", v);
+    let mut v = f.clone();
+    v.samples[1][1] = Some(Val::Int(i32::MIN + 7));
+    add("format-reserved-int", v);
+    let mut v = f.clone();
+    v.samples[1][2] = Some(Val::IntA(vec![Some(1), Some(i32::MIN + 1)]));
+    add("format-vector-reserved-int", v);
+    if !bcf {
+        let mut v = f.clone();
+        v.info.push(("9X".into(), Some(Val::Int(1))));
+        add("invalid-info-key", v);
+        let mut v = f.clone();
+        v.format.push("9Y".into());
+        for s in &mut v.samples {
+            s.push(Some(Val::Int(1)));
+        }
+        add("invalid-format-key", v);
+        let mut v = f.clone();
+        v.format.swap(0, 1);
+        for s in &mut v.samples {
+            s.swap(0, 1);
+        }
+        add("gt-not-first", v);
+        let mut v = f.clone();
+        v.ids = vec!["a b".into()];
+        add("invalid-id", v);
+        let mut v = f.clone();
+        v.alts = vec!["A,C".into()];
+        add("invalid-alt", v);
+        let mut v = f.clone();
+        v.filters = vec!["q 10".into()];
+        add("invalid-filter", v);
+        let mut v = f.clone();
+        v.chrom = "a b".into();
+        add("invalid-chrom", v);
+        let mut v = f.clone();
+        v.refb = "AZ".into();
+        add("invalid-ref-base", v);
+    } else {
+        let mut v = f.clone();
+        v.info.push(("ZZ9".into(), Some(Val::Int(1))));
+        add("unknown-info-key", v);
+        let mut v = f.clone();
+        v.format.push("ZY9".into());
+        for s in &mut v.samples {
+            s.push(Some(Val::Int(1)));
+        }
+        add("unknown-format-key", v);
+        let mut v = f.clone();
+        v.filters = vec!["q10".into(), "nope".into()];
+        add("unknown-filter", v);
+        let mut v = f.clone();
+        v.chrom = "sq9".into();
+        add("unknown-contig", v);
+        let mut v = f.clone();
+        v.samples[1][0] = None;
+        add("gt-missing", v);
+        let mut v = f.clone();
+        v.samples[1][0] = gt(&[(Some(0), false), (Some(63), false), (Some(1), false)]);
+        add("gt-allele-63", v);
+        let mut v = f.clone();
+        set_info(&mut v, "XFR", Some(Val::FloatA(vec![Some(1f32.to_bits()), Some(0x7f80_0002)])));
+        add("info-reserved-nan", v);
+        let mut v = f.clone();
+        v.samples[1][3] = Some(Val::FloatA(vec![Some(0x7f80_0001), Some(2f32.to_bits())]));
+        add("format-reserved-nan", v);
+        let mut v = f.clone();
+        v.samples[1][1] = Some(Val::s("not-an-integer"));
+        add("format-type-mismatch", v);
+        let mut v = f.clone();
+        set_info(&mut v, "XIU", Some(Val::IntA(vec![])));
+        add("info-empty-vector", v);
+        if ff < (4, 5) {
+            let mut v = f.clone();
+            set_info(&mut v, "END", Some(Val::Int(3)));
+            add("end-before-pos", v);
+        }
+    }
+    out
+}
